@@ -17,10 +17,10 @@ func init() {
 		Title: "Concurrent states never interfere; channels deliver each value once, in order",
 		Explanation: "Decided: R13-globals — for every package-level variable of the library packages (lua, pm, parse, ast): no store to it, to its elements or through it outside package initialisation (sync.Pool methods excepted), no field store through a value loaded from a pointer-typed global (the compiler's expcontext caches are protected by ecupdate's identity guard, which is checked), and no package-level pointer to a mutable struct escapes into Lua-visible storage; " +
 			"R13-proto — every instruction that writes a FunctionProto / DbgLocalInfo / DbgCall field or an element of a slice held in such a field sits in a function that is unreachable from the execution roots once Compile is removed from the call graph (executing a prototype never modifies it); " +
-			"R13-sendguard — every Lua value placed in a channel send position passed isGoroutineSafe with a raising arm, isGoroutineSafe rejects functions, userdata, threads and tables with metatables, and no blocking channel operation sits in a loop (send/receive/close map 1:1 to Go channel operations). " +
+			"R13-poolrelease — a call-frame segment handed back to the shared sync.Pool is not used, nor is an address into it returned, on any later path of the releasing function; R13-sendguard — every Lua value placed in a channel send position passed isGoroutineSafe with a raising arm, isGoroutineSafe rejects functions, userdata, threads and tables with metatables, and no blocking channel operation sits in a loop (send/receive/close map 1:1 to Go channel operations). " +
 			"NOT decided: race freedom of heap objects reachable through values, ordering and exactly-once delivery (trusted to the Go runtime once the 1:1 mapping holds).",
 		Trusted: []string{"exported configuration variables (RegistrySize, MaxArrayIndex, …) are set by the embedder before states run"},
-		Rules:   []func(*Ctx){ruleGlobals, ruleProto, ruleSendGuard},
+		Rules:   []func(*Ctx){ruleGlobals, ruleProto, ruleSendGuard, rulePoolRelease},
 	})
 }
 
@@ -238,6 +238,112 @@ func ruleGlobals(c *Ctx) {
 					}
 				}
 			})
+		}
+	}
+}
+
+// rulePoolRelease: typestate of pooled call-frame segments — once a segment was handed back to the
+// shared pool (another state may take it at once) the releasing function must not use it, or any
+// address derived from it, on any later path (including returning such an address).
+func rulePoolRelease(c *Ctx) {
+	const R = "R13-poolrelease"
+	c.floor(R, 4)
+	p := c.P
+	free := c.need(R, "lua", "freeCallFrameStackSegment")
+	if free == nil {
+		return
+	}
+	for _, fn := range p.srcFuncs {
+		calls := callsTo(fn, free)
+		if len(calls) == 0 {
+			continue
+		}
+		c.touch(fn)
+		g := p.G(fn)
+		for _, fc := range calls {
+			c.Sites++
+			key := fmt.Sprintf("%s:release#%d", fname(fn), countKey(c, R, fname(fn)))
+			seg := fc.Call.Args[0]
+			tainted := map[ssa.Value]bool{seg: true}
+			// addresses derived from the segment anywhere in the function (they may be computed before the release)
+			for changed := true; changed; {
+				changed = false
+				allInstrs(fn, func(in ssa.Instruction) {
+					switch x := in.(type) {
+					case *ssa.FieldAddr:
+						if tainted[x.X] && !tainted[x] {
+							tainted[x] = true
+							changed = true
+						}
+					case *ssa.IndexAddr:
+						if tainted[x.X] && !tainted[x] {
+							tainted[x] = true
+							changed = true
+						}
+					}
+				})
+			}
+			var bad ssa.Instruction
+			seen := map[*ssa.BasicBlock]bool{}
+			var walk func(b *ssa.BasicBlock, idx int, from *ssa.BasicBlock)
+			walk = func(b *ssa.BasicBlock, idx int, from *ssa.BasicBlock) {
+				if bad != nil {
+					return
+				}
+				if idx == 0 {
+					// phis take the value of the edge we came through
+					for _, in := range b.Instrs {
+						ph, ok := in.(*ssa.Phi)
+						if !ok {
+							break
+						}
+						for i, pr := range b.Preds {
+							if pr == from && tainted[ph.Edges[i]] {
+								tainted[ph] = true
+							}
+						}
+					}
+					if seen[b] {
+						return
+					}
+					seen[b] = true
+				}
+				for i := idx; i < len(b.Instrs); i++ {
+					in := b.Instrs[i]
+					if _, isPhi := in.(*ssa.Phi); isPhi {
+						continue
+					}
+					if _, isDbg := in.(*ssa.DebugRef); isDbg {
+						continue
+					}
+					if si, ok := seg.(ssa.Instruction); ok && si == in {
+						return // the value is defined anew here (next loop iteration): a different segment
+					}
+					for _, op := range in.Operands(nil) {
+						if *op != nil && tainted[*op] {
+							bad = in
+							return
+						}
+					}
+					if v, ok := in.(ssa.Value); ok {
+						// derived addresses computed after the release from a still-tainted base are uses as well (caught above)
+						_ = v
+					}
+					if g.Cut[b] >= 0 && i >= g.Cut[b] {
+						return
+					}
+				}
+				for _, s := range b.Succs {
+					walk(s, 0, b)
+				}
+			}
+			blk, i := after(fc)
+			walk(blk, i, nil)
+			pos := p.ipos(fc)
+			if bad != nil {
+				pos = p.ipos(bad)
+			}
+			c.check(bad == nil, R, key, pos, "the released segment is not touched on any later path", "a call-frame segment is used (or an address into it is returned) after it was handed back to the shared segment pool: another LState can take and overwrite it in between, so states interfere (the VM reads the frame it has just popped)")
 		}
 	}
 }
